@@ -104,6 +104,7 @@ fn main() {
         "dbgref" => debug_ref(args[2].parse().unwrap(), &args[3]),
         "dbgsched" => debug_sched(args[2].parse().unwrap(), &args[3], args[4].parse().unwrap(), args[5].parse().unwrap(), args[6].parse().unwrap()),
         "dbgdops" => debug_dops(),
+        "dbgsyncval" => debug_syncval(),
         "selftest" => match self_test() {
             Ok(()) => println!("self-test ok"),
             Err(e) => {
@@ -153,11 +154,45 @@ pub fn debug_sched(wb: i32, hexs: &str, n_in: usize, room: usize, flush: i32) {
 pub fn debug_dops() {
     use optree::*;
     let env = OpEnv::new();
-    let ops = [DOp::Deflate { flush: 0, inn: 1, room: drv::AMPLE }, DOp::ResetKeep, DOp::Params(0, 2)];
-    for (n, r) in [("rs", run_dops::<api::Rs>(1, 8, -9, 1, 0, &ops, &env, false, false, 1, false, None)), ("ng", run_dops::<api::Ng>(1, 8, -9, 1, 0, &ops, &env, false, false, 1, false, None))] {
+    let ops = [DOp::Deflate { flush: 2, inn: usize::MAX, room: 1 }, DOp::Prime(16, 65535)];
+    for (n, r) in [("rs", run_dops::<api::Rs>(6, 8, 15, 8, 0, &ops, &env, false, false, 64, false, None)), ("ng", run_dops::<api::Ng>(6, 8, 15, 8, 0, &ops, &env, false, false, 64, false, None))] {
         match r {
             Ok(r) => println!("{n}: obs {:?} tail_calls {} ended {} out {}", r.obs.iter().map(|o| (o.ret, o.din, o.dout)).collect::<Vec<_>>(), r.tail_calls, r.tail_ended, engine::hex(&r.total_out)),
             Err(e) => println!("{n}: ERR {e}"),
         }
+    }
+}
+
+#[allow(dead_code)]
+pub fn debug_syncval() {
+    use api::*;
+    use inputs::*;
+    unsafe fn go<Zx: Z>(data: &[u8]) {
+        let mut s = Strm::plain();
+        Zx::inflateInit2_(s.p(), 31, Zx::zlibVersion(), STREAM_SIZE);
+        let mut out = vec![0u8; 70000];
+        s.z.next_in = data.as_ptr();
+        s.z.avail_in = data.len() as u32;
+        s.z.next_out = out.as_mut_ptr();
+        s.z.avail_out = 70000;
+        let r1 = Zx::inflate(s.p(), Z_BLOCK);
+        let r2 = Zx::inflate(s.p(), Z_BLOCK);
+        let r3 = Zx::inflateSync(s.p());
+        let left_after_sync = s.z.avail_in;
+        let r4 = Zx::inflateValidate(s.p(), 1);
+        let r5 = Zx::inflate(s.p(), Z_NO_FLUSH);
+        let msg = if s.z.msg.is_null() { "".to_string() } else { std::ffi::CStr::from_ptr(s.z.msg).to_string_lossy().to_string() };
+        println!("{}: {r1} {r2} sync {r3} (left {left_after_sync}) validate {r4} inflate {r5} avail_in {} total_out {} msg {msg:?} adler {:#x}", Zx::NAME, s.z.avail_in, s.z.total_out, s.z.adler);
+        Zx::inflateEnd(s.p());
+    }
+    let env = drv::Env::new();
+    let plain = text(4, 400);
+    let cfg = DCfg { level: 6, strategy: 0, wbits: 15, mem_level: 8, wrap: Wrap::Gzip };
+    let sched = drv::DSched { steps: vec![drv::DStep::Feed { n: 150, room: drv::AMPLE, flush: Z_FULL_FLUSH }], tail_room: drv::AMPLE };
+    let z = drv::run_deflate::<Ng>(&cfg, &plain, &sched, &env, &drv::DExtra::default(), None).unwrap().out;
+    println!("crc of whole {:#x} crc of tail {:#x}", refs::cksum::crc32(0, &plain), refs::cksum::crc32(0, &plain[150..]));
+    unsafe {
+        go::<Rs>(&z);
+        go::<Ng>(&z);
     }
 }
